@@ -13,7 +13,7 @@ use std::sync::Mutex;
 use vcommon::evidence::{catch, h64, Violation};
 use vcommon::refscale::PType;
 
-pub const BUILDER_VALUES: usize = 9;
+pub const BUILDER_VALUES: usize = 10;
 
 fn prim(p: TypeDefPrimitive, path: &[&str], docs: &[&str], params: Vec<TypeParameter<PortableForm>>) -> PType {
     Type::new(
@@ -48,11 +48,18 @@ fn builder_value(k: usize, model: &[PType]) -> PType {
         5 => prim(TypeDefPrimitive::U8, &[], &["d"], vec![]),
         6 => prim(TypeDefPrimitive::U8, &["p"], &[], vec![]),
         7 => prim(TypeDefPrimitive::U8, &[], &[], vec![TypeParameter::new_portable("T".into(), None)]),
-        _ => prim(TypeDefPrimitive::U8, &[], &["d", ""], vec![]),
+        8 => prim(TypeDefPrimitive::U8, &[], &["d", ""], vec![]),
+        // forward reference two ahead of the id this value will get (dangling until two more values follow)
+        _ => Type::new(
+            Path::from_segments_unchecked(["Fwd".to_string()]),
+            vec![],
+            TypeDefComposite::new(vec![Field::new(Some("ahead".into()), (len + 2).into(), None, vec![]), Field::new(Some("next".into()), (len + 1).into(), None, vec![])]),
+            vec![],
+        ),
     }
 }
 
-const VALUE_NAMES: [&str; BUILDER_VALUES] = ["u8", "bool", "seq(0)", "composite{me: next_type_id()}", "tuple(last id)", "u8+docs[d]", "u8+path[p]", "u8+param[T]", "u8+docs[d,\"\"]"];
+const VALUE_NAMES: [&str; BUILDER_VALUES] = ["u8", "bool", "seq(0)", "composite{me: next_type_id()}", "tuple(last id)", "u8+docs[d]", "u8+path[p]", "u8+param[T]", "u8+docs[d,\"\"]", "composite{ahead: next_type_id()+2, next: next_type_id()+1}"];
 
 /// replay a builder history against the Vec model; returns Debug key and first failure
 pub fn eval_builder(hist: &[u8]) -> (String, Option<(String, String)>) {
@@ -302,4 +309,111 @@ pub fn finish_of(hist: &[u8]) -> scale_info::PortableRegistry {
         b.register_type(v);
     }
     b.finish()
+}
+
+
+// ------------------------------------------------------------------ long tables (symmetry-reduced)
+
+/// Size-related behaviour (thresholds at 8, 16, 32 ... elements) needs many DISTINCT values, which the full
+/// product cannot reach. Reduction: the table is grown one new value at a time (three insertion orders:
+/// increasing, decreasing, zig-zag); in every state S_k every present value is re-registered and must return its
+/// first index and leave the Debug rendering of the real object unchanged — by that equality sequences with
+/// further repetitions have the same futures and need not be enumerated. All observations are evaluated in every S_k.
+pub fn long_tables(builder: bool, size: usize) -> (u64, u64, Vec<Violation>) {
+    let mut viol: Vec<Violation> = vec![];
+    let mut states = 0u64;
+    let mut transitions = 0u64;
+    for order_kind in 0..3u8 {
+        let order: Vec<u32> = (0..size as u32)
+            .map(|i| match order_kind {
+                0 => i,
+                1 => size as u32 - 1 - i,
+                _ => if i % 2 == 0 { i / 2 } else { size as u32 - 1 - i / 2 },
+            })
+            .collect();
+        let name = ["increasing", "decreasing", "zig-zag"][order_kind as usize];
+        let mut note = |k: usize, key: &str, m: String, viol: &mut Vec<Violation>| {
+            if viol.len() < 50 {
+                viol.push(Violation { key: format!("{}:long:{key}", if builder { "builder" } else { "interner" }), msg: format!("{m} — table grown in {name} order to {k} distinct values"), case: json!({"kind": "long-table", "builder": builder, "order": order_kind, "size": k}) });
+            }
+        };
+        if builder {
+            let val = |v: u32| -> PType { prim(TypeDefPrimitive::U8, &[&format!("t{v:03}")], &[], vec![]) };
+            let mut b = PortableRegistryBuilder::new();
+            for k in 0..=size {
+                states += 1;
+                // observations in S_k
+                if b.next_type_id() != k as u32 {
+                    note(k, "next_type_id", format!("next_type_id() = {}, table holds {k}", b.next_type_id()), &mut viol);
+                }
+                let fin = b.finish();
+                if fin.types.len() != k || fin.types.iter().enumerate().any(|(i, t)| t.id != i as u32 || t.ty != val(order[i])) {
+                    note(k, "finish", "finish() does not list the values at their indices".into(), &mut viol);
+                }
+                for i in 0..k + 2 {
+                    let want = if i < k { Some(val(order[i])) } else { None };
+                    if b.get(i as u32).cloned() != want {
+                        note(k, "get", format!("get({i}) differs from the list"), &mut viol);
+                    }
+                }
+                let dbg = format!("{b:?}");
+                for j in 0..k {
+                    transitions += 1;
+                    let got = b.register_type(val(order[j]));
+                    if got != j as u32 {
+                        note(k, "register_type", format!("re-registering the value stored at index {j} returned {got}"), &mut viol);
+                    }
+                    if format!("{b:?}") != dbg {
+                        note(k, "register_type", format!("re-registering the value stored at index {j} changed the builder"), &mut viol);
+                        break;
+                    }
+                }
+                if k < size {
+                    transitions += 1;
+                    let got = b.register_type(val(order[k]));
+                    if got != k as u32 {
+                        note(k, "register_type", format!("a new value got index {got}, the next free index is {k}"), &mut viol);
+                    }
+                }
+            }
+        } else {
+            let mut it: Interner<u32> = Interner::new();
+            for k in 0..=size {
+                states += 1;
+                if it.elements() != &order[..k] {
+                    note(k, "elements", "elements() differs from the list".into(), &mut viol);
+                }
+                for j in 0..k {
+                    if it.get(&order[j]).map(|s| s.into_untracked().id) != Some(j as u32) {
+                        note(k, "get", format!("get of the value stored at index {j} does not return {j}"), &mut viol);
+                    }
+                }
+                if k < size && it.get(&order[k]).is_some() {
+                    note(k, "get", "get of an absent value is Some".into(), &mut viol);
+                }
+                let dbg = format!("{it:?}");
+                for j in 0..k {
+                    transitions += 1;
+                    let (ins, sym) = it.intern_or_get(order[j]);
+                    let id = sym.into_untracked().id;
+                    if ins || id != j as u32 {
+                        note(k, "intern_or_get", format!("re-interning the value stored at index {j} returned ({ins}, {id})"), &mut viol);
+                    }
+                    if format!("{it:?}") != dbg {
+                        note(k, "intern_or_get", format!("re-interning the value stored at index {j} changed the interner"), &mut viol);
+                        break;
+                    }
+                }
+                if k < size {
+                    transitions += 1;
+                    let (ins, sym) = it.intern_or_get(order[k]);
+                    let id = sym.into_untracked().id;
+                    if !ins || id != k as u32 {
+                        note(k, "intern_or_get", format!("a new value returned ({ins}, {id}), expected (true, {k})"), &mut viol);
+                    }
+                }
+            }
+        }
+    }
+    (states, transitions, viol)
 }
